@@ -155,8 +155,8 @@ def observe(op, t, W, level):
                     slots.append((si, "exp(i*theta*generator)(bridged)", ("genf", p, theta)))
         except ot.Unencodable as e:
             skipped.append(f"{kind}:{str(e)[:40]}")
-        except (OffLattice, KeyError, AttributeError) as e:
-            skipped.append(f"{kind}:unencodable:{str(e)[:40]}")
+        except Exception as e:           # no image in the spec's term language: counted, never guessed
+            skipped.append(f"{kind}:unencodable:{type(e).__name__}:{str(e)[:40]}")
     # pauli_rep
     try:
         pr = op.pauli_rep
